@@ -87,6 +87,11 @@ AttachSplit(a) ==
     [] a = "."     -> <<".">>
     [] a = "b"     -> <<"b">>
     [] a = "s/a"   -> <<"s", "a">>
+    [] a = "b/a"   -> <<"b", "a">>
+    [] a = "a/a"   -> <<"a", "a">>
+    [] a = "a/a/b" -> <<"a", "a", "b">>
+    [] a = "/a/"   -> <<"a", "">>
+    [] a = "LONG"  -> <<"LONG">>
 
 -----------------------------------------------------------------------------
 (* Initial backend trees.  Objects: 1 = root.                               *)
@@ -115,11 +120,12 @@ WorldDents(w) ==
 
 \* fault: [at |-> i, kind |-> "EIO"|"panic"]: the i-th backend call of this
 \* request returns that instead of its natural result; at = 0 means no fault.
-S0(c, fl) ==
-  [ c |-> c, fidtab |-> fidtab[c], ref |-> ref, node |-> node, otype |-> otype,
-    dent |-> dent, bf |-> bf,
+SX(c, fl, ft, rf, nd, ot, de, b) ==
+  [ c |-> c, fidtab |-> ft[c], ref |-> rf, node |-> nd, otype |-> ot,
+    dent |-> de, bf |-> b,
     calls |-> <<>>, closes |-> <<>>, panic |-> FALSE, cerr |-> "ok",
     fault |-> fl, fired |-> FALSE, ipanic |-> FALSE ]
+S0(c, fl) == SX(c, fl, fidtab, ref, node, otype, dent, bf)
 
 RECURSIVE ResolveFrom(_, _, _)
 ResolveFrom(s, o, p) ==
@@ -165,11 +171,12 @@ CallRec(k, f, names, f2, a) ==
 
 NewHandle(s, o, path, opened) ==
   [s EXCEPT !.bf = Append(@, [obj |-> o, path |-> path, closed |-> 0,
-                              opens |-> IF opened THEN 1 ELSE 0, uac |-> 0])]
+                              opens |-> IF opened THEN 1 ELSE 0, uac |-> 0, cp |-> FALSE])]
 HandleId(s) == Len(s.bf)     \* id of the handle NewHandle just made
 
-\* Mark a call on a closed handle (use after close) for the invariant.
-Touch(s, f) == IF f # 0 /\ s.bf[f].closed > 0
+\* Mark a call on a closed handle (use after close) for the invariant.  A File
+\* whose Close panicked never finished closing and is not held to this.
+Touch(s, f) == IF f # 0 /\ s.bf[f].closed > 0 /\ ~s.bf[f].cp
                THEN [s EXCEPT !.bf[f].uac = @ + 1] ELSE s
 
 NewObj(s, t) == [s EXCEPT !.otype = Append(@, t), !.dent = Append(@, NoEnt)]
@@ -226,6 +233,7 @@ DecRef(s, r) ==
        LET f   == s1.ref[r].file
            cl  == BCall(Touch(s1, f), CallRec("Close", f, <<>>, 0, ""), "ok")
            s2  == [cl.s EXCEPT !.bf[f].closed = @ + 1,
+                               !.bf[f].cp = (cl.res = "panic"),
                                !.closes = Append(@, f),
                                !.cerr = IF @ = "ok" /\ cl.res \notin {"ok", "panic"} THEN cl.res ELSE @]
            p   == s2.ref[r].parent
@@ -902,6 +910,25 @@ Disconnect(c) ==
                         closes |-> out.s.closes, paths |-> Paths(out.s), ipanic |-> FALSE,
                         okerr |-> {}, fen |-> FALSE])
 
+\* Probes: read-only requests evaluated on the state *after* a transition.
+\* They make the abstract state observable from outside (is the fid bound, to
+\* which File, is it open): the harness sends them after the last step of a
+\* generated history and compares, so that an edge that leaves the wrong
+\* state behind is caught even though TLC merges histories by state.
+ProbeReqs == UNION {{[Req("Tgetattr") EXCEPT !.fid = f], [Req("Tfsync") EXCEPT !.fid = f]} : f \in Fids}
+ProbeOrder == CHOOSE sq \in [1..Cardinality(ProbeReqs) -> ProbeReqs] : \A i, j \in DOMAIN sq : i # j => sq[i] # sq[j]
+ProbesOn(c) ==    \* evaluated on the primed state (used in action constraints only)
+  [i \in 1..Cardinality(ProbeReqs) |->
+     LET q == ProbeOrder[i]
+         out == Handle(SX(c, [at |-> 0, kind |-> "none"], fidtab', ref', node', otype', dent', bf'), q)
+     IN [c |-> c, req |-> q, calls |-> out.s.calls, reply |-> out.reply, closes |-> out.s.closes,
+         paths |-> <<>>, ipanic |-> FALSE, okerr |-> IF out.reply.t = "Rlerror" THEN {out.reply.e} ELSE {},
+         fen |-> FALSE]]
+RECURSIVE ProbesFor(_)
+ProbesFor(cs) == IF cs = {} THEN <<>>
+                 ELSE LET c == CHOOSE c \in cs : \A d \in cs : c <= d IN ProbesOn(c) \o ProbesFor(cs \ {c})
+ProbesAfter == ProbesFor({c \in Conns : up'[c]})
+
 Next ==
   /\ depth < MaxDepth
   /\ \/ \E c \in Conns, q \in Requests, fl \in FaultChoices : up[c] /\ Serve(c, q, fl)
@@ -956,10 +983,13 @@ UnboundIsEBADF ==
        /\ st.calls = <<>>
        /\ fidtab'[c] = fidtab[c]
 
+\* (A panic inside the backend aborts the handler before the unbind; the
+\* statements of C04/C15 promise the unbind after *errors*.)
+StepPanicked(st) == st.ipanic \/ \E j \in 1..Len(st.calls) : st.calls[j].res = "panic"
 ClunkRemoveAlwaysUnbind ==
   log' # log =>
     LET st == log'[Len(log')]  q == st.req IN
-    q.t \in {"Tclunk", "Tremove"} => fidtab'[st.c][q.fid] = Nil
+    (q.t \in {"Tclunk", "Tremove"} /\ ~StepPanicked(st)) => fidtab'[st.c][q.fid] = Nil
 
 \* newfid is (re)bound only by a successful walk / attach / xattrwalk / create.
 BindOnlyOnSuccess ==
@@ -976,7 +1006,8 @@ BindOnlyOnSuccess ==
 ErrorLeavesTableUnchanged ==
   log' # log =>
     LET st == log'[Len(log')]  q == st.req IN
-    (st.reply.t = "Rlerror" /\ q.t \notin {"Tclunk", "Tremove", "Disconnect"}) => fidtab'[st.c] = fidtab[st.c]
+    (st.reply.t = "Rlerror" /\ q.t \notin {"Tclunk", "Tremove", "Disconnect"} /\ ~StepPanicked(st))
+        => fidtab'[st.c] = fidtab[st.c]
 
 \* I/O only on a fid opened in a compatible mode (on the reference state before the step).
 IOOnlyWhenOpenCompatible ==
@@ -1056,15 +1087,17 @@ PanicIsEFAULT ==
   HasLast => ((\E j \in 1..Len(Last.calls) : Last.calls[j].res = "panic") => Last.reply = Err("EFAULT"))
 
 \* Files obtained during a request that failed with a backend *error* are closed in that step.
+\* (Not asserted once an earlier panic has torn a multi-step update: DESIGN.md section 7.)
+PanickedEarlier == \E i \in 1..(Len(log) - 1) : \E j \in 1..Len(log[i].calls) : log[i].calls[j].res = "panic"
 ObtainedFilesClosed ==
-  HasLast =>
+  (HasLast /\ ~PanickedEarlier) =>
     ((Last.reply.t = "Rlerror" /\ ~\E j \in 1..Len(Last.calls) : Last.calls[j].res = "panic") =>
        \A j \in 1..Len(Last.calls) :
           (Last.calls[j].nf # 0 /\ Last.calls[j].res = "ok") => bf[Last.calls[j].nf].closed = 1)
 
 \* The internal assertions of the code ("expected name for", "parent deleted")
 \* are never reached in sequential histories.
-NoInternalPanic == HasLast => ~Last.ipanic
+NoInternalPanic == (HasLast /\ ~PanickedEarlier) => ~Last.ipanic
 
 UnboundIsEBADFP == [][UnboundIsEBADF]_vars
 ClunkRemoveAlwaysUnbindP == [][ClunkRemoveAlwaysUnbind]_vars
